@@ -22,9 +22,9 @@ import (
 	"verifharness/internal/hx"
 )
 
-// While fuzzing the guard withholds everything above 64 MiB: an allocation of 16..64 MiB is as
+// While fuzzing the guard withholds everything above 4 MiB: an allocation of 2..4 MiB is as
 // good a witness of "out of proportion" as 1 GiB and keeps executions cheap.
-const fuzzLo = uint64(1) << 26
+const fuzzLo = uint64(1) << 22
 
 const fuzzMaxInput = 64 << 10
 
